@@ -22,6 +22,7 @@
 #define protected public
 #include "Abundances.hpp"
 #include "ChargeTransferRates.hpp"
+#include "DensitySubGrid.hpp"
 #include "IonizationStateCalculator.hpp"
 #include "LineCoolingData.hpp"
 #include "PhysicalConstants.hpp"
@@ -392,6 +393,68 @@ static std::string scalars_text(const TempArgs &a) {
   return o.str();
 }
 
+// ------------------------------------------------------------------- subgrid level wrappers
+/// wrapper tokens `sx sy sz nx ny nz` at w[o..o+5]
+struct Shape {
+  double side[3];
+  int n[3];
+};
+static Shape parse_shape(const std::vector< std::string > &w, size_t o) {
+  Shape s;
+  for (int i = 0; i < 3; ++i) {
+    s.side[i] = dbl(w[o + i]);
+    s.n[i] = (int)dbl(w[o + 3 + i]);
+  }
+  return s;
+}
+static DensitySubGrid *make_subgrid(const Shape &s) {
+  const double box[6] = {0., 0., 0., s.side[0], s.side[1], s.side[2]};
+  return new DensitySubGrid(box, CoordinateVector< int_fast32_t >(s.n[0], s.n[1], s.n[2]));
+}
+/// what the wrappers hand to the kernels, computed with the constructor's and the wrapper's own
+/// statements (used only to prepare `sgtemp` lines; the run itself calls the real wrapper)
+static void wrapper_factors(double L, double tw, const Shape &s, double &jfac, double &hfac,
+                            double &zmid) {
+  const double cs[3] = {s.side[0] / s.n[0], s.side[1] / s.n[1], s.side[2] / s.n[2]};
+  const double V = cs[0] * cs[1] * cs[2];
+  const double jf = L / tw;
+  const double hf = jf * PhysicalConstants::get_physical_constant(PHYSICALCONSTANT_PLANCK);
+  jfac = jf / V;
+  hfac = hf / V;
+  zmid = 0. + (0 + 0.5) * cs[2];
+}
+/// state of all cells after the call: cell 0, and whether every cell equals cell 0
+static std::string subgrid_result(DensitySubGrid &sg, bool with_T) {
+  std::ostringstream o;
+  auto c0 = sg.begin();
+  const IonizationVariables &v0 = c0.get_ionization_variables();
+  if (with_T)
+    o << showF(v0.get_temperature()) << " ";
+  for (int i = 0; i < 14; ++i)
+    o << (i ? " " : "") << showF(v0.get_ionic_fraction(i));
+  bool same = true;
+  for (auto it = sg.begin(); it != sg.end(); ++it) {
+    const IonizationVariables &v = it.get_ionization_variables();
+    for (int i = 0; i < 14; ++i)
+      if (showF(v.get_ionic_fraction(i)) != showF(v0.get_ionic_fraction(i)))
+        same = false;
+  }
+  o << (same ? " same" : " DIFFER");
+  return o.str();
+}
+/// hydrogen-only oracle through the wrapper: the stored neutral fraction must solve the balance
+/// equation for the rate L * counter / (totweight * V), V = product of side/ncell (independent
+/// re-derivation in long double)
+static double wrapper_residual(double L, double tw, const Shape &s, double counter, double n,
+                               double aH, double x) {
+  const long double V = ((long double)s.side[0] / s.n[0]) * ((long double)s.side[1] / s.n[1]) *
+                        ((long double)s.side[2] / s.n[2]);
+  const long double jH = (long double)L * counter / ((long double)tw * V);
+  const long double C = jH / ((long double)n * aH);
+  const long double lx = x;
+  return (double)(fabsl(lx * lx - (2.0L + C) * lx + 1.0L) / (lx * lx + (2.0L + C) * lx + 1.0L));
+}
+
 // ------------------------------------------------------------------------------------- prep
 static std::string prep_line(const std::vector< std::string > &w) {
   const std::string &op = w[0];
@@ -460,6 +523,43 @@ static std::string prep_line(const std::vector< std::string > &w) {
     ct19(W->ctr, T * 1.e-4, c);
     for (int i = 0; i < 19; ++i)
       o << " " << showF(c[i]);
+  } else if ((op == "sgcellspec" && w.size() >= 14) || (op == "sgionspec" && w.size() >= 16)) {
+    // sgcellspec L tw sx sy sz nx ny nz n T AHe K (nu w)*K
+    // sgionspec  mode L0 L tw sx sy sz nx ny nz n T AHe K (nu w)*K
+    const size_t o0 = op == "sgcellspec" ? 9 : 11; // index of n
+    double mean[NUMBER_OF_IONNAMES], heat[2];
+    spectrum(w, o0 + 3, mean, heat);
+    const double T = dbl(w[o0 + 1]);
+    o << (op == "sgcellspec" ? "sgcell" : "sgion");
+    for (size_t i = 1; i < o0 + 3; ++i)
+      o << " " << w[i];
+    for (int i = 0; i < 14; ++i)
+      o << " " << showF(mean[i]);
+    o << " " << rates_text(T);
+  } else if (op == "sgtempspec" && w.size() >= 29) {
+    // sgtempspec L0 L tw sx sy sz nx ny nz <18 scalars of tempspec, jfac and z ignored> K (nu w)*K
+    const double L = dbl(w[2]), tw = dbl(w[3]);
+    const Shape sh = parse_shape(w, 4);
+    std::vector< std::string > w2(w.begin() + 9, w.end());
+    TempArgs a = parse_scalars(w2, 1, false);
+    spectrum(w2, 19, a.mean, a.heat);
+    wrapper_factors(L, tw, sh, a.jfac, a.hfac, a.z);
+    std::string res;
+    int status;
+    const bool ok = in_child(
+        [&]() {
+          RecordingRates rec(W->rates);
+          run_temp(a, rec);
+          return balance_table(a, rec.Ts);
+        },
+        res, status);
+    if (!ok)
+      return "abort " + join(w);
+    o << "sgtemp";
+    for (size_t i = 1; i < 10; ++i)
+      o << " " << w[i];
+    o << " " << scalars_text(a) << " " << showF(W->rates.get_recombination_rate(ION_H_n, 8000.))
+      << " " << showF(W->rates.get_recombination_rate(ION_He_n, 8000.)) << " " << res;
   } else if ((op == "balspec" && w.size() >= 20) || (op == "balxraw" && w.size() == 36)) {
     // balspec: the scalars of tempspec (Told is the temperature of the evaluation); balxraw:
     // those of tempxraw.  Full line:
@@ -655,6 +755,128 @@ int main(int argc, char **argv) {
                             !frac_ok(dbl(r[1]))))
           bad << " hhe:range h0=" << (r[0] == "nan" ? NAN : dbl(r[0]))
               << " he0=" << (r[1] == "nan" ? NAN : dbl(r[1]));
+      }
+    } else if ((op == "sgcell" && w.size() == 59) || (op == "sgion" && w.size() == 61)) {
+      // sgcell L tw sx sy sz nx ny nz n T AHe mean[14] a[14] ct[19]
+      // sgion  mode L0 L tw sx sy sz nx ny nz n T AHe mean[14] a[14] ct[19]
+      const bool ion = op == "sgion";
+      const size_t o0 = ion ? 11 : 9;
+      const int mode = ion ? (int)u64(w[1]) : -1;
+      const double L0 = ion ? dbl(w[2]) : 0., L = dbl(w[ion ? 3 : 1]), tw = dbl(w[ion ? 4 : 2]);
+      const Shape sh = parse_shape(w, ion ? 5 : 3);
+      const double n = dbl(w[o0]), T = dbl(w[o0 + 1]), AHe = dbl(w[o0 + 2]);
+      if (rates_text(T) != join(std::vector< std::string >(w.begin() + o0 + 17, w.end()))) {
+        std::cout << op << " line-inconsistent-with-rate-tables\n";
+      } else {
+        std::string res;
+        int status;
+        const bool ok = in_child(
+            [&]() {
+              Abundances ab(AHe, 0., 0., 0., 0., 0.);
+              DensitySubGrid *sg = make_subgrid(sh);
+              for (auto it = sg->begin(); it != sg->end(); ++it) {
+                IonizationVariables &v = it.get_ionization_variables();
+                v.set_number_density(n);
+                v.set_temperature(T);
+                for (int i = 0; i < 14; ++i) {
+                  v.set_mean_intensity(i, dbl(w[o0 + 3 + i]));
+                  v.set_ionic_fraction(i, SENTINEL);
+                }
+              }
+              if (!ion) {
+                IonizationStateCalculator isc(L, ab, W->rates, W->ctr);
+                isc.calculate_ionization_state(tw, *sg);
+              } else {
+                // a calculator set up with L0 whose luminosity is then updated to L; the
+                // ionization-only branch of calculate_temperature(loop, totweight, subgrid)
+                TemperatureCalculator calc(mode == 1, mode == 1 ? 5 : 0, L0, ab, 1.e-3, 100, 0., 0.,
+                                           0.75, 0., 4000., W->data, W->rates, W->ctr, nullptr);
+                calc.update_luminosity(L);
+                calc.calculate_temperature(1, tw, *sg);
+              }
+              return subgrid_result(*sg, false);
+            },
+            res, status);
+        if (!ok) {
+          std::cout << op << " abort\n";
+          bad << " sg:abort " << why(status);
+        } else {
+          auto r = words(res);
+          std::cout << op;
+          for (int i = 0; i < 14; ++i)
+            std::cout << " " << r[i];
+          std::cout << "\n";
+          if (r[14] != "same")
+            bad << " sg:cells-differ (identical cells of one subgrid got different fractions)";
+          bool okf = true;
+          double f[14];
+          for (int i = 0; i < 14; ++i) {
+            f[i] = tokval(r[i]);
+            okf = okf && frac_ok(f[i]);
+          }
+          if (!okf)
+            bad << " sg:range";
+          else if (f[2] + f[3] > 1. + 1.e-12 || f[4] + f[5] + f[6] > 1. + 1.e-12 ||
+                   f[7] + f[8] > 1. + 1.e-12 || f[9] + f[10] > 1. + 1.e-12 ||
+                   f[11] + f[12] + f[13] > 1. + 1.e-12)
+            bad << " sg:stage-sum-above-1";
+          // hydrogen only: the stored neutral fraction solves the balance for the CURRENT
+          // luminosity and the real cell volume
+          const double counter = dbl(w[o0 + 3]), aH = dbl(w[o0 + 17]);
+          if (AHe == 0. && okf && n > 0. && counter > 0. && L > 0. && f[0] > 1.e-14 && f[0] < 1.) {
+            const double rr = wrapper_residual(L, tw, sh, counter, n, aH, f[0]);
+            if (!(rr <= 1.e-9))
+              bad << " sg:h0-balance-residual x=" << f[0] << " relative-residual=" << rr
+                  << " (rate L*J/(totweight*V) with V = prod side/ncell)";
+          }
+        }
+      }
+    } else if (op == "sgtemp" && w.size() >= 60) {
+      // sgtemp L0 L tw sx sy sz nx ny nz | <temp tokens 1..>
+      const double L0 = dbl(w[1]), L = dbl(w[2]), tw = dbl(w[3]);
+      const Shape sh = parse_shape(w, 4);
+      std::vector< std::string > w2(w.begin() + 9, w.end());
+      TempArgs a = parse_scalars(w2, 1, true);
+      for (int i = 0; i < 14; ++i)
+        a.mean[i] = dbl(w2[20 + i]);
+      a.heat[0] = dbl(w2[34]);
+      a.heat[1] = dbl(w2[35]);
+      for (int i = 0; i < 12; ++i)
+        a.met0[i] = dbl(w2[36 + i]);
+      std::string res;
+      int status;
+      const bool ok = in_child(
+          [&]() {
+            Abundances ab(a.AHe, a.AC, a.AN, a.AO, a.ANe, a.AS);
+            TemperatureCalculator calc(true, 0, L0, ab, a.eps, a.maxit, a.pah, a.crfac, a.crlim,
+                                       a.crscale, a.tmin, W->data, W->rates, W->ctr, nullptr);
+            calc.update_luminosity(L);
+            DensitySubGrid *sg = make_subgrid(sh);
+            for (auto it = sg->begin(); it != sg->end(); ++it)
+              fill_vars(a, it.get_ionization_variables());
+            calc.calculate_temperature(1, tw, *sg);
+            return subgrid_result(*sg, true);
+          },
+          res, status);
+      if (!ok) {
+        std::cout << "sgtemp abort\n";
+        bad << " sg:abort " << why(status);
+      } else {
+        auto r = words(res);
+        std::cout << "sgtemp";
+        for (int i = 0; i < 15; ++i)
+          std::cout << " " << r[i];
+        std::cout << "\n";
+        const double T = tokval(r[0]);
+        const double Tinit = (a.Told <= 4000.) ? 8000. : a.Told;
+        const double lo = std::min(std::min(a.tmin, Tinit), 30000.);
+        if (!fin_(T) || !(T == 500. || (T >= lo && T <= 30000.)))
+          bad << " sg:T-out-of-bounds T=" << T;
+        bool okf = true;
+        for (int i = 0; i < 14; ++i)
+          okf = okf && frac_ok(tokval(r[1 + i]));
+        if (!okf)
+          bad << " sg:range";
       }
     } else if ((op == "cell" || op == "cellx") && w.size() == 52) {
       // cell jfac n T AHe mean[14] a[14] ct[19]
